@@ -34,6 +34,15 @@ func (r *Return) Evaluation(
 		return nil
 	}
 
+	// a bare 'return' hands back nil
+	if nextT.IsNewLineIdentifier() || nextT.IsEndIdentifier() || nextT.IsTargetIdentifier("}") {
+		p.Unget()
+		p.SetLastEvaluatedT(base.MakeNil())
+		p.AppendLastReturnT()
+
+		return nil
+	}
+
 	p.StartParsingExpression()
 
 	ctx.StartMultiValue()
